@@ -20,6 +20,7 @@ import Driver.JsonRpc
 import Driver.NodeCache
 import Driver.NodeSync
 import Driver.ConsensusStore
+import Driver.Downloader
 /-
 One line per handler object. The first handler that understands a line answers it.
 -/
@@ -56,7 +57,8 @@ def registry : List Obj := [
   pureObj pureJsonRpc,
   mkObj ([] : NcAll) ncStep,
   pureObj pureConsStore,
-  mkObj ({} : CsDbSt) csDbStep
+  mkObj ({} : CsDbSt) csDbStep,
+  mkObj ([] : DlBuf) dlStep
 ]
 
 end ZV.Driver
